@@ -576,3 +576,42 @@ Theorem hidden_kept_without_option fnm contents fl disk dir sub name isdir :
   (filter_content contents (dir ++ sub)
    || (if isdir then filter_subdir fnm fl disk sub else filter_path fnm fl disk sub)).
 Proof. reflexivity. Qed.
+
+(** * The content-file rule at full strength is refuted: the comparison is textual *)
+
+(** two spellings of the same file under POSIX pathname resolution (only the rules needed here: a "." component
+    and a repeated slash change nothing) *)
+Inductive same_file : list N -> list N -> Prop :=
+| sf_refl : forall p, same_file p p
+| sf_dot : forall a b, same_file (a ++ SLASH :: b) (a ++ SLASH :: DOT :: SLASH :: b)
+| sf_slash : forall a b, same_file (a ++ SLASH :: b) (a ++ SLASH :: SLASH :: b)
+| sf_sym : forall p q, same_file p q -> same_file q p
+| sf_trans : forall p q r, same_file p q -> same_file q r -> same_file p r.
+
+(** the property as the documentation states it ("this file is automatically excluded from the sync process"):
+    whatever spelling the configuration uses for the content file *)
+Definition content_excluded_full : Prop :=
+  forall fnm nohidden contents fl disk dir sub name isdir c,
+    In c contents -> same_file (dir ++ sub) c ->
+    scan_skips fnm nohidden contents fl disk dir sub name isdir = true.
+
+(** witness: data dir "/d/", entry "content", configuration line "content /d/./content", no rule *)
+Definition wit_dir : list N := [47; 100; 47].
+Definition wit_sub : list N := [99; 111; 110; 116; 101; 110; 116].
+Definition wit_content : list N := [47; 100; 47; 46; 47; 99; 111; 110; 116; 101; 110; 116].
+
+Theorem content_excluded_refuted :
+  exists fnm nohidden contents fl disk dir sub name isdir c,
+    In c contents /\ same_file (dir ++ sub) c /\
+    scan_skips fnm nohidden contents fl disk dir sub name isdir = false.
+Proof.
+  exists glob_match, false, [wit_content], [], [100; 49], wit_dir, wit_sub, wit_sub, false, wit_content.
+  split; [left; reflexivity|]. split; [|vm_compute; reflexivity].
+  exact (sf_dot [47; 100] wit_sub).
+Qed.
+
+Corollary content_excluded_full_is_false : ~ content_excluded_full.
+Proof.
+  intros H. destruct content_excluded_refuted as [fnm [nh [cs [fl [disk [dir [sub [name [isdir [c [Hin [Hs Hf]]]]]]]]]]]].
+  rewrite (H fnm nh cs fl disk dir sub name isdir c Hin Hs) in Hf. discriminate.
+Qed.
